@@ -944,6 +944,109 @@ func ruleORD6(w *World, r *Report) {
 
 // ---------- ORD-8 shutdown order ----------
 
+// ruleORD8b: Index.Close unmaps the arena only after everything that may still read it was drained or stopped.
+func ruleORD8b(w *World, r *Report) {
+	r.Doc("ORD-8b", "Index.Close closes (unmaps) the arena only after it set the closed flag, obtained activeMu and metaMu exclusively, and stopped and awaited the arena compactor (the compactor's pointer updates are the one reader that holds neither lock)", 4)
+	fi := w.Func("pkg/core/hnsw", "Index.Close")
+	if fi == nil {
+		r.Und("ORD-8b", "anchor:Index.Close", "", "anchor lost")
+		return
+	}
+	fn := w.SSAFunc(fi.Obj)
+	isArenaClose := func(in ssa.Instruction) bool { return isModCall(in, "pkg/storage/mmap", "VectorArena.Close") }
+	closes := findInstrs(fn, isArenaClose)
+	if len(closes) == 0 {
+		r.Und("ORD-8b", "anchor:Index.Close:arena.Close", w.Pos(fi.Decl.Pos()), "Index.Close no longer closes the arena")
+		return
+	}
+	lockOf := func(field string) func(ssa.Instruction) bool {
+		return func(in ssa.Instruction) bool {
+			c, ok := in.(*ssa.Call)
+			if !ok {
+				return false
+			}
+			o := calleeObj(&c.Call)
+			return o != nil && o.Pkg() != nil && o.Pkg().Path() == "sync" && shortName(o) == "RWMutex.Lock" && recvIsField(c, field)
+		}
+	}
+	steps := []struct {
+		name string
+		pred func(ssa.Instruction) bool
+		bad  string
+	}{
+		{"closed-flag", func(in ssa.Instruction) bool {
+			c, ok := in.(*ssa.Call)
+			if !ok {
+				return false
+			}
+			o := calleeObj(&c.Call)
+			return o != nil && o.Pkg() != nil && o.Pkg().Path() == "sync/atomic" && shortName(o) == "Bool.Store" && recvIsField(c, "closed")
+		}, "new operations can still start while the arena is being unmapped"},
+		{"metaMu.Lock", lockOf("metaMu"), "readers that hold metaMu (VGet, iteration, vacuum) can still be reading vectors when the arena is unmapped: SIGSEGV"},
+		{"StopCompactor", func(in ssa.Instruction) bool { return isModCall(in, "pkg/storage/mmap", "VectorArena.StopCompactor") }, "the compactor can still relocate vectors and update node pointers while the arena is being unmapped"},
+		{"WaitForStopped", func(in ssa.Instruction) bool { return isModCall(in, "pkg/storage/mmap", "VectorArena.WaitForStopped") }, "the compactor was told to stop but may still be inside a relocation when the arena is unmapped"},
+	}
+	for _, st := range steps {
+		ok, wit := mustPrecede(fn, st.pred, isArenaClose, nil)
+		r.Cond(ok && len(findInstrs(fn, st.pred)) > 0, "ORD-8b", "Index.Close:"+st.name+"<arena.Close", w.Pos(closes[0].Pos()), st.name+" precedes the unmapping on every path", "Index.Close can unmap the arena without "+st.name+" first: "+st.bad, w.witness(wit)...)
+	}
+	// activeMu is taken in a helper goroutine and awaited through a channel: the unmapping must lie behind the receive
+	// from that channel (the timeout arm must not reach it)
+	drained := false
+	for _, b := range fn.Blocks {
+		for _, in := range b.Instrs {
+			sel, ok := in.(*ssa.Select)
+			if !ok {
+				continue
+			}
+			// states: recv drainDone, recv time.After
+			for si, stt := range sel.States {
+				if stt.Dir != types.RecvOnly {
+					continue
+				}
+				if c, ok := stt.Chan.(*ssa.Call); ok {
+					if o := calleeObj(&c.Call); o != nil && o.Pkg() != nil && o.Pkg().Path() == "time" && o.Name() == "After" {
+						// the timeout arm: from its edge no path to arena.Close
+						idx := extractOfValue(sel, 0)
+						if idx == nil {
+							continue
+						}
+						for _, ref := range *idx.Referrers() {
+							bo, ok := ref.(*ssa.BinOp)
+							if !ok || bo.Op != token.EQL {
+								continue
+							}
+							if k, ok := constInt(bo.Y); !ok || int(k) != si {
+								continue
+							}
+							t, _ := condEdges(bo)
+							okT := len(t) > 0
+							for _, e := range t {
+								if found, _ := (pathQuery{fn: fn, target: isArenaClose}).find(ipos{e.from.Succs[e.succ], -1}); found {
+									okT = false
+								}
+							}
+							if okT {
+								drained = true
+							}
+						}
+					}
+				}
+			}
+		}
+	}
+	hasActive := false
+	for _, c := range closuresOf(fn) {
+		if len(findInstrs(c, lockOf("activeMu"))) > 0 {
+			hasActive = true
+		}
+	}
+	if len(findInstrs(fn, lockOf("activeMu"))) > 0 {
+		hasActive, drained = true, true
+	}
+	r.Cond(hasActive && drained, "ORD-8b", "Index.Close:activeMu-drained<arena.Close", w.Pos(closes[0].Pos()), "activeMu is taken exclusively and the timeout arm never reaches the unmapping", "Index.Close can unmap the arena without having drained the in-flight operations (activeMu not taken, or the drain-timeout path goes on to unmap): a search or insert that is still running reads unmapped memory")
+}
+
 func ruleORD8(w *World, r *Report) {
 	r.Doc("ORD-8", "Engine.Close: cancel < wg.Wait < AOF.Close < DB.Close, inside closeOnce.Do", 4)
 	fi := w.Func("pkg/engine", "Engine.Close")
@@ -1197,4 +1300,94 @@ func (w *World) reachesRename(fi *FuncInfo, pred func(ssa.Instruction) bool, dep
 		}
 	}
 	return false
+}
+
+// ruleORD4b: the shadow writes handed to the caller of EndSnapshotMode must be the caller's own.
+func ruleORD4b(w *World, r *Report) {
+	r.Doc("ORD-4b", "a slice that the lazy writer's goroutine hands out in a command response (the shadow writes returned by EndSnapshotMode) does not share its backing array with a buffer the goroutine goes on using: it is a fresh copy, or the goroutine's variable is re-pointed at a fresh array before it is used again", 1)
+	fi := w.Func("pkg/persistence", "LazyAOFWriter.run")
+	if fi == nil {
+		r.Und("ORD-4b", "anchor:LazyAOFWriter.run", "", "anchor lost")
+		return
+	}
+	root := w.SSAFunc(fi.Obj)
+	fns := append([]*ssa.Function{root}, closuresOf(root)...)
+	n := 0
+	// allocs of local []string buffers
+	derivedFromAlloc := func(v ssa.Value) *ssa.Alloc {
+		seen := map[ssa.Value]bool{}
+		var rec func(v ssa.Value) *ssa.Alloc
+		rec = func(v ssa.Value) *ssa.Alloc {
+			if v == nil || seen[v] {
+				return nil
+			}
+			seen[v] = true
+			switch x := v.(type) {
+			case *ssa.UnOp:
+				if x.Op == token.MUL {
+					if al, ok := x.X.(*ssa.Alloc); ok {
+						return al
+					}
+					if fv, ok := x.X.(*ssa.FreeVar); ok {
+						_ = fv
+					}
+				}
+			case *ssa.Slice:
+				return rec(x.X)
+			case *ssa.Phi:
+				for _, e := range x.Edges {
+					if a := rec(e); a != nil {
+						return a
+					}
+				}
+			case *ssa.Call:
+				if c, ok := isBuiltinCall(x, "append"); ok && len(c.Call.Args) > 0 {
+					return rec(c.Call.Args[0])
+				}
+			}
+			return nil
+		}
+		return rec(v)
+	}
+	for _, fn := range fns {
+		for _, b := range fn.Blocks {
+			for _, in := range b.Instrs {
+				st, ok := in.(*ssa.Store)
+				if !ok {
+					continue
+				}
+				fa, ok := st.Addr.(*ssa.FieldAddr)
+				if !ok {
+					continue
+				}
+				if _, f := structFieldName(fa.X.Type(), fa.Field); f != "writes" {
+					continue
+				}
+				if _, isSl := st.Val.Type().Underlying().(*types.Slice); !isSl {
+					continue
+				}
+				n++
+				key := fmt.Sprintf("run:handout#%d", n)
+				al := derivedFromAlloc(st.Val)
+				if al == nil {
+					r.Ok("ORD-4b", key, w.Pos(st.Pos()), "the response carries a freshly allocated slice")
+					continue
+				}
+				// the goroutine's buffer must be re-pointed at a fresh array before any further use
+				keeps := func(x ssa.Instruction) bool {
+					s2, ok := x.(*ssa.Store)
+					return ok && s2.Addr == ssa.Value(al) && derivedFromAlloc(s2.Val) == al
+				}
+				fresh := func(x ssa.Instruction) bool {
+					s2, ok := x.(*ssa.Store)
+					return ok && s2.Addr == ssa.Value(al) && derivedFromAlloc(s2.Val) == nil
+				}
+				found, wit := (pathQuery{fn: fn, target: keeps, avoid: fresh}).find(posOf(st))
+				r.Cond(!found, "ORD-4b", key, w.Pos(st.Pos()), "the buffer variable is re-pointed at a fresh array after the hand-out", "run() hands its own shadow buffer to the caller of EndSnapshotMode and then keeps appending into the same backing array (buffer = buffer[:0]): writes of the next snapshot/compaction window overwrite entries the first caller has not re-journaled yet — acknowledged writes vanish from the log", w.witness(wit)...)
+			}
+		}
+	}
+	if n == 0 {
+		r.Und("ORD-4b", "anchor:run:writes-handout", w.Pos(fi.Decl.Pos()), "no response carrying a `writes` slice found in the writer goroutine")
+	}
 }
